@@ -4,6 +4,7 @@ mod colls;
 mod gen;
 mod inject;
 mod hexh;
+mod fuzz;
 mod keys;
 mod oracle;
 mod rng;
@@ -79,7 +80,11 @@ fn main() {
         println!("replayed {} histories, {} transitions, {} oracle failures", n, out.lines, out.oracle_fails);
         let exp = std::fs::read_to_string(format!("{}.replay/exp.txt", outdir)).unwrap_or_default();
         let req = std::fs::read_to_string(format!("{}.replay/req.txt", outdir)).unwrap_or_default();
-        for (r, e) in req.lines().zip(exp.lines()) { println!("{}\n    -> {}", r.split('|').next().unwrap_or(""), e); }
+        for (r, e) in req.lines().zip(exp.lines()) {
+            // (the state of a bulk-loaded tree is megabytes: the printout is cut)
+            let cut: String = e.chars().take(1500).collect();
+            println!("{}\n    -> {}{}", r.split('|').next().unwrap_or(""), cut, if cut.len() < e.len() { " …" } else { "" });
+        }
         let orc = std::fs::read_to_string(format!("{}.replay/oracle.jsonl", outdir)).unwrap_or_default();
         for l in orc.lines() { println!("ORACLE-FAILURE {}", l); }
         let _ = std::fs::remove_dir_all(format!("{}.replay", outdir));
@@ -115,6 +120,12 @@ fn main() {
                 random_mapset(&mut out, suite, &mut rng, &cfg);
             }
             if !arena_mode() {
+                // high-volume results-only differential run
+                let (n, f) = fuzz::fuzz_suite(&mut out, suite, seed, if thorough { 12000 } else { 1500 });
+                extra.push(("fuzz_operations".into(), n.to_string()));
+                extra.push(("fuzz_failed".into(), f.to_string()));
+            }
+            if !arena_mode() {
                 // every history of up to 7 (thorough: 8) operations over three keys, lookups included
                 let d = if thorough { 8 } else { 7 };
                 let (n, f) = hexh::history_exhaustive(&mut out, suite, 3, d, 8, false);
@@ -144,6 +155,16 @@ fn main() {
                 random_key(&mut out, suite, &mut rng, &cfg);
             }
             if !arena_mode() {
+                let (n, f) = fuzz::fuzz_suite(&mut out, suite, seed, if thorough { 12000 } else { 1500 });
+                extra.push(("fuzz_operations".into(), n.to_string()));
+                extra.push(("fuzz_failed".into(), f.to_string()));
+            }
+            if !arena_mode() {
+                // every key probed from the same unpurged state (the state is rebuilt for each probe)
+                let np = probe_all_keys(&mut out, suite, &mut rng, if thorough { 60 } else { 12 }, &[8, 16, 24, 32, 48]);
+                extra.push(("probe_all_keys".into(), np.to_string()));
+            }
+            if !arena_mode() {
                 let d = if thorough { 7 } else { 6 };
                 let (n, f) = hexh::history_exhaustive(&mut out, suite, 3, d, 8, false);
                 extra.push(("history_exhaustive_depth".into(), d.to_string()));
@@ -157,6 +178,9 @@ fn main() {
             extra.push(("pair_stride".into(), (if thorough { 1 } else { 8 }).to_string()));
             seg::seg_layouts(&mut out, &mut rng, thorough);
             seg::seg_random(&mut out, &mut rng, if thorough { 300 } else { 40 }, if thorough { 300 } else { 120 });
+            let (nf, ff) = fuzz::fuzz_seg(&mut out, seed, if thorough { 12000 } else { 1500 });
+            extra.push(("fuzz_operations".into(), nf.to_string()));
+            extra.push(("fuzz_failed".into(), ff.to_string()));
             // every history of up to 5 (thorough: 6) operations over five ranges, on a 32-point domain (buckets =
             // points) and on a 128-point one (buckets of width 4)
             let d = if thorough { 6 } else { 5 };
@@ -184,15 +208,18 @@ fn main() {
         }
         // large exports (C19)
         "export-size" => {
-            let sizes: Vec<i64> = if thorough { vec![0, 1, 2, 3, 7, 8, 100, 1000, 5000, 65000, 300000, 1000000] } else { vec![0, 1, 2, 7, 100, 1000, 5000, 70000] };
+            let sizes: Vec<i64> = if thorough { vec![0, 1, 2, 3, 7, 8, 100, 1000, 5000, 65000, 300000, 1000000] } else { vec![0, 1, 2, 7, 100, 1000, 5000, 70000, 250000, 600000] };
             for (i, &n) in sizes.iter().enumerate() {
                 for order in 0..3 {
+                    // (quick tier: the largest trees in descending order only — the deepest left spines)
+                    if !thorough && n > 100000 && order != 1 { continue; }
                     let mut r = Runner::new(&mut out, "export-size", "key", [0usize, 8, 1000][i % 3], 0);
                     r.emit = false; // too large for the driver; the oracle (capacity bound, content) still runs
-                    r.oracles = n <= 5000;
+                    r.oracles = n <= (if thorough { 5000 } else { 1000 });
                     let mut keys: Vec<i64> = (0..n).collect();
                     if order == 1 { keys.reverse(); } else if order == 2 { for j in (1..keys.len()).rev() { let k = rng.below(j as u64 + 1) as usize; keys.swap(j, k); } }
                     for k in keys { r.step_light(&Op::new("insert", &[k, 10, k, 0])); }
+                    r.bulk_order = if order < 2 { Some(order as i64) } else { None };
                     r.oracles = true; r.emit = n <= 100;
                     let o = r.step_export_only(&Op::new("export", &[5]), n as usize);
                     let _ = o;
